@@ -78,6 +78,8 @@ def deep_close(a, b, rel=1e-9, abs_=1e-12):
 # ------------------------------------------------------------------------------------------- comparators
 def cmp_T(op, a, b, ctx):
     k = op["op"]
+    if k in ("qbox", "qtree") and a.get("dtype") != b.get("dtype"):
+        return "dtype kind of the returned index array(s): %s vs %s" % (a.get("dtype"), b.get("dtype"))
     if k == "qbox":
         if a["flag"] != b["flag"] or sorted(map(str, a["hits"])) != sorted(map(str, b["hits"])):
             return "query result differs: %s vs %s" % (sorted(map(str, a["hits"]))[:6], sorted(map(str, b["hits"]))[:6])
